@@ -82,7 +82,6 @@ impl MT296 {
 
         verify_parser_complete(&parser)?;
 
-
         Ok(MT296 {
             field_20,
             field_21,
